@@ -14,12 +14,14 @@ fn main() {
     let mut elem = "elem".to_string();
     let mut cap = 0u8;
     let mut from = 0usize;
+    let mut logpath: Option<String> = None;
     let mut i = 2;
     while i < args.len() {
         match args[i].as_str() {
             "--elem" => { elem = args[i + 1].clone(); i += 2; }
             "--cap" => { cap = args[i + 1].parse().unwrap(); i += 2; }
             "--from" => { from = args[i + 1].parse().unwrap(); i += 2; }
+            "--log" => { logpath = Some(args[i + 1].clone()); i += 2; }
             x => panic!("unknown argument {x}"),
         }
     }
@@ -27,6 +29,7 @@ fn main() {
     let f = std::fs::File::open(path).expect("cases file");
     let out = std::io::stdout();
     let mut out = std::io::BufWriter::new(out.lock());
+    let mut logfile = logpath.map(|p| std::io::BufWriter::new(std::fs::OpenOptions::new().create(true).append(true).open(p).expect("log file")));
     let mut n = 0usize;
     let mut failed = 0usize;
     let mut skipped = 0usize;
@@ -45,12 +48,21 @@ fn main() {
         let fails = match fam {
             "hist" => {
                 let steps = case["steps"].as_array().unwrap();
-                match elem.as_str() {
-                    "elem" => tdverif::hist::run_case::<Elem>(steps, cap, &mut None),
-                    "u32" => tdverif::hist::run_case::<K32>(steps, cap, &mut None),
-                    "zst" => tdverif::hist::run_case::<Zst>(steps, cap, &mut None),
+                let mut events: Vec<Value> = Vec::new();
+                let f = match elem.as_str() {
+                    "elem" => tdverif::hist::run_case::<Elem>(steps, cap, &mut events),
+                    "u32" => tdverif::hist::run_case::<K32>(steps, cap, &mut events),
+                    "zst" => tdverif::hist::run_case::<Zst>(steps, cap, &mut events),
                     e => panic!("unknown elem {e}"),
+                };
+                if let Some(lf) = logfile.as_mut() {
+                    for mut e in events {
+                        e["case"] = serde_json::json!(ln);
+                        writeln!(lf, "{}", e).unwrap();
+                    }
+                    lf.flush().unwrap();
                 }
+                f
             }
             "acc" => {
                 let o = match elem.as_str() {
